@@ -21,7 +21,7 @@
 From Coq Require Import List ZArith QArith Qround Qabs Bool Arith Lia.
 From LMBase Require Import Res ListX IEEE.
 From LMDist Require Import GenDist DistSkel DistModel DistInst DistProofs DistConv DistTail DistBuild DistThms
-  DistDyadic DistCheckProofs DistStretch DistIEEE DistTotal DistNaive DistWords.
+  DistDyadic DistCheckProofs DistStretch DistIEEE DistTotal DistNaive DistWords DistRound.
 Import ListNotations.
 Local Open Scope Q_scope.
 
@@ -195,6 +195,18 @@ Theorem C11_kloop_is_rust_loop : forall (T : Type) (N : NumOps T) old maxk s b n
   (S maxk <= length old)%nat -> (0 <= s)%Z -> s <> i32_min ->
   add_symbol N old maxk s b new = naive_k N old (Z.to_nat s) b (seq 0 (S maxk)) new.
 Proof. exact @add_symbol_naive_eq. Qed.
+
+(* The round trip in binary32/binary64 itself (f32 unscale included): under the computable
+   predicate [f64_roundtrip_pred d] -- scale(unscale(i)) = i for every index 0..len of the table
+   (a function of scale, offset, M only: f64_unscale_exact_on), table non-increasing in [0,1] and
+   flat below min_score -- converting a p-value in (0,1) to a score and back never yields a larger
+   p-value, for the bit-exact model.  The known finding C11-unscale-inexact is "predicate false"
+   (the driver evaluates the predicate on the model of the failing case). *)
+Theorem C11_roundtrip_binary64 : forall (d : dist F64.t) p s q,
+  f64_roundtrip_pred d = true -> in_open01 F64Ops p = true ->
+  d_score F64Ops d p = Ok s -> d_pvalue F64Ops d s = Ok q ->
+  le_n F64Ops q p = true.
+Proof. exact roundtrip_F64. Qed.
 
 (* ====================================================================== *)
 (* Tie of the hand-written model to the source text (regenerated on every   *)
@@ -398,4 +410,14 @@ Proof. cbv zeta. conj_all; vm_compute; reflexivity. Qed.
 (* the word sum on the example: 4 words of weight 1/4 (the wildcard word has weight 0 and
    score -inf), P(S >= 3/2) = 1/2 *)
 Example ex_word_sum : tail_words ex_m ex_bg (3 # 2) == 1 # 2 /\ length (all_words 5 1) = 5%nat.
+Proof. split; vm_compute; reflexivity. Qed.
+
+(* the predicate of C11_roundtrip_binary64 holds on the ordinary example matrix (cells 0,1,2,3)
+   and fails on the witness of the known finding (cells in [4096, 4096.001], M = 2) *)
+Example ex_roundtrip_pred :
+  match f64_build (map (map f32_cell) [[0; 1065353216; 1073741824; 1077936128; ninf32]]%Z) (map f32_val bg_uniform32) with
+  | Ok d => f64_roundtrip_pred d | _ => false end = true /\
+  match f64_build (map (map f32_cell) [[1166016512; 1166016512; 1166016513; 1166016514; ninf32];
+                                       [1166016512; 1166016513; 1166016513; 1166016514; ninf32]]%Z) (map f32_val bg_uniform32) with
+  | Ok d => f64_unscale_exact_on (d_scale_f d) (d_offset d) (d_rows d) (length (d_sf d)) | _ => true end = false.
 Proof. split; vm_compute; reflexivity. Qed.
